@@ -85,6 +85,25 @@ def siblings(ck, P):
         msgs_f = {m for m in fastfp["msgs"] if m.startswith("invalid")}
         ck.decide(msgs_l == msgs_f, R, "Len~fast:msgs", "same rejection messages %s" % sorted(msgs_l),
                   "slow and fast symbol decoders reject different things: slow only %s, fast only %s" % (sorted(msgs_l - msgs_f), sorted(msgs_f - msgs_l)))
+    # window geometry: the fast decoder and the slow Match arms locate the source of a match in the same window, so they
+    # take its size / write position / fill from the same place (the Window object) - never from a second derivation
+    def geometry(fn, blocks):
+        src = set()
+        for c in fn.live_calls(r"window::Window::\w+$"):
+            if c.bb in blocks:
+                src.add("Window::" + c.callee.split("::")[-1])
+        for bi, si, lhs, rv, st in fn.assignments():
+            if bi in blocks and mir.mentions_field(fn.rvalue_expr(rv), "wbits"):
+                src.add("state.wbits")
+        return src
+    if f and "Match" in rl and "Match" in rd:
+        gs = {"dispatch:Match": geometry(d, rd["Match"]), "len_and_friends:Match": geometry(l, rl["Match"]), "fast": geometry(f, f.live)}
+        ref_g = gs["len_and_friends:Match"]
+        for k, g in gs.items():
+            ck.decide(g == ref_g and bool(g), R, "window-geometry:" + k, "window geometry from %s" % sorted(g),
+                      "the match copy in %s takes the window geometry from %s, the slow Match arm from %s: the copies locate a match's "
+                      "source differently (it shows once the window has wrapped, i.e. only for some chunkings)" % (k, sorted(g), sorted(ref_g)),
+                      where(f if k == "fast" else (d if k.startswith("dispatch") else l)))
     fb = P.fn(decoders.FAST_BACK)
     if f and fb:
         a = decoders.arm_fingerprint(f, f.live)
